@@ -10,6 +10,7 @@ cache files):
                                  `hash` attribute = the hash written
 
 File level (`Cppcheck.CacheCrash`, for every per-file analysis / whole-program analysis / hash function):
+  crash_then_run_eq_no_build_dir_partial   THE PROPERTY: … = the findings of a run WITHOUT a build directory
   crash_then_run_eq_fresh_partial   after ANY history of kills (any executor, any byte cut in any file) and complete runs on
                                  the same inputs, the next complete run reports exactly what a run on an empty build
                                  directory reports — if the analysis does not depend on summaryReturn and the checkers
@@ -76,6 +77,23 @@ theorem crash_then_run_eq_fresh_partial (w : World) (o : Opts) (files : List Nat
   have ok := dirOK_reachable w o files hw hs ho d hd
   rw [(completeRun_findings w o files d hw hs ho ok).1,
     (completeRun_findings w o files Dir.empty hw hs ho (dirOK_empty w files)).1]
+
+/-- **The property as worded** (reference = a run WITHOUT a build directory, `noBuildDirRun`: no cache, empty
+`summaryReturn`, whole-program analysis over the in-memory FileInfo of all analysed files): after any history of kills and
+complete runs on these inputs the next complete run reports exactly the findings of a run without a build directory.
+Same hypotheses as `crash_then_run_eq_fresh_partial`; that the whole-program analysis is the same function of the same
+FileInfo blocks whether they are kept in memory or re-read from the cache files is C22's statement (here: the parameter `wp`). -/
+theorem crash_then_run_eq_no_build_dir_partial (w : World) (o : Opts) (files : List Nat) (hw : WellFormedWorld w)
+    (hs : SummInsensitive w files) (ho : o.reportCheckers = false) (d : Dir) (hd : Reachable w o files d) :
+    (completeRun w o files d).1 = noBuildDirRun w o files := by
+  have ok := dirOK_reachable w o files hw hs ho d hd
+  rw [(completeRun_findings w o files d hw hs ho ok).1, noBuildDirRun_eq w o files ho]
+
+/-- a run on an empty build directory reports what a run without build directory reports -/
+theorem empty_dir_run_eq_no_build_dir (w : World) (o : Opts) (files : List Nat) (hw : WellFormedWorld w)
+    (hs : SummInsensitive w files) (ho : o.reportCheckers = false) :
+    (completeRun w o files Dir.empty).1 = noBuildDirRun w o files :=
+  crash_then_run_eq_no_build_dir_partial w o files hw hs ho _ .empty
 
 /-- the single-crash instance: kill the first run at any point, then run to completion -/
 theorem crash_once_then_run_eq_fresh (w : World) (o : Opts) (files : List Nat) (hw : WellFormedWorld w)
@@ -210,7 +228,8 @@ theorem crash_then_run_eq_fresh_counterexample_checkers :
     (completeRun wPlain ⟨true⟩ [0, 1] (crashDir wPlain [0, 1] Dir.empty crashLate)).1 = [10, 11, 100, 101, 1001] ∧
     (completeRun wPlain ⟨true⟩ [0, 1] Dir.empty).1 = [10, 11, 100, 101, 1003] := by decide
 
-/-- hence the full-strength statement (no hypothesis on summaries / the checkers report) does not hold of the code -/
+/-- hence the statement without the hypotheses on summaries / the checkers report does not hold of the code — already
+for the single-kill instance from the empty directory (an instance of the `Reachable` form of the main theorem) -/
 theorem crash_then_run_eq_fresh_counterexample :
     ¬ ∀ (w : World) (o : Opts) (files : List Nat) (c : Crash), WellFormedWorld w →
       (completeRun w o files (crashDir w files Dir.empty c)).1 = (completeRun w o files Dir.empty).1 := by
